@@ -357,6 +357,31 @@ func runMatch(tier string, seed int64) (string, bool) {
 		}
 	})
 	addSample(fmt.Sprintf("Match([%q], Prefix|Largest, %q)", sets[len(sets)/3]+"*", bsub[len(bsub)/2]))
+	// characters that mean something to the regular-expression engine but
+	// nothing to the shell stand for themselves: every pattern of <= 5 symbols
+	// over {a, {, }, 1, ",", +, (, ), |, ., ^, $} against short subjects
+	ralpha, rl := []string{"a", "{", "}", "1", ",", "+", "(", "|"}, 3
+	rsalpha := []string{"a", "{", "}", "1", ","}
+	if tier == "thorough" {
+		ralpha, rl = []string{"a", "{", "}", "1", ",", "+", "(", ")", "|", ".", "^", "$"}, 4
+		rsalpha = []string{"a", "{", "}", "1", ",", "+", "(", "|", "."}
+	}
+	rmeta := words(ralpha, rl)
+	for _, extra := range []string{"a{1,}", "a{1,1}", "a{1}a", "{1,1}", "a{1,}a", "(a|a)", "a{11}"} {
+		rmeta = append(rmeta, extra)
+	}
+	rsub := words(rsalpha, 3)
+	for _, extra := range []string{"a{1}", "a{1,}", "aaaa", "a{1,1}", "a{11}", "(a|a)"} {
+		rsub = append(rsub, extra)
+	}
+	parallel(len(rmeta), func(i int) {
+		for _, s := range rsub {
+			for _, m := range modes {
+				checkMatch([]string{rmeta[i]}, m, s)
+			}
+		}
+	})
+	addSample(fmt.Sprintf("Match([%q], Suffix|Smallest, %q)", "a{1}", "a{1}"))
 	// two-pattern lists over a small alphabet
 	p2 := words([]string{"a", "b", "*", "?", "|"}, 2)
 	s2 := words([]string{"a", "b", "|"}, 3)
@@ -395,5 +420,5 @@ func runMatch(tier string, seed int64) (string, bool) {
 	}
 	parallel(n, func(i int) { checkMatch([]string{rcs[i].p}, rcs[i].m, rcs[i].s) })
 	addSample(fmt.Sprintf("Match([%q], %d, %q) (random part)", rcs[0].p, rcs[0].m, rcs[0].s))
-	return fmt.Sprintf("exhaustive: single patterns of <= %d symbols over %d, subjects of <= %d over %d, 4 modes; all bracket expressions with optional negation and <= 3 members over {],a,z,*,?,-,!,(,.,\\\\-,\\\\]} alone and followed by * or a, on subjects <= 2 over 14 symbols; pairs of patterns of <= 2 symbols over {a,b,*,?,|} on subjects <= 3; plus %d seeded random patterns with classes, ranges, multi-byte runes and regexp metacharacters", pl, len(palpha), sl, len(salpha), n), true
+	return fmt.Sprintf("exhaustive: single patterns of <= %d symbols over %d, subjects of <= %d over %d, 4 modes; all bracket expressions with optional negation and <= 3 members over {],a,z,*,?,-,!,(,.,\\\\-,\\\\]} alone and followed by * or a, on subjects <= 2 over 14 symbols; all patterns of <= 3 symbols over 8 regexp metacharacters (thorough: <= 4 over 12) plus repetition-like forms such as a{1,} on subjects <= 3 over 5 (thorough: 9); pairs of patterns of <= 2 symbols over {a,b,*,?,|} on subjects <= 3; plus %d seeded random patterns with classes, ranges, multi-byte runes and regexp metacharacters", pl, len(palpha), sl, len(salpha), n), true
 }
